@@ -4,7 +4,7 @@
    Hence a sub-multiset of the genuine chain mixed with any such records is as sound as the sub-multiset
    alone: the defence is the containment test of the wrap-around case in aggressiveNSECClassifyInterval
    (a chain-closing record covers only names below its NextDomain) together with subtree convexity. *)
-From Sdns Require Import Common.Base Gen.C02 C02.Model C02.Spec C02.Proofs_Order C02.Proofs_Nsec C02.Proofs_Spec C02.Proofs_NsecTop.
+From Sdns Require Import Common.Base Gen.C02 C02.Model C02.Spec C02.Proofs_Order C02.Proofs_Nsec C02.Proofs_Spec C02.Proofs_NsecTop C02.ModelAuth.
 Open Scope N_scope.
 
 Definition keep_b (ds : list rname) (e : cnsec) : bool := negb (confined_b ds e).
@@ -158,4 +158,50 @@ Example mix_example :
   exists_in_b mx_zone mx_u = false /\
   (* the owner t.e. sorts after the child's closing record too, and is not denied *)
   aggr_nsec mx_t 1 1 mx_e (firstn 2 mx_recs) = A_err E_missing.
+Proof. vm_compute. repeat split; reflexivity. Qed.
+
+(* ------------------------------------------------------------ Resolver.authority with the signature layer *)
+
+(* a record of the signer zone (by owner) that is not signed by the zone refuses the response *)
+Lemma authority_unsigned_refused rcode q qtype qclass signer recs r :
+  In (r, false) recs -> prefix_b signer (c_owner r) = true ->
+  authority_nsec_signed rcode false q qtype qclass signer recs = (E_other, false, false, false).
+Proof.
+  intros Hin Hp. unfold authority_nsec_signed.
+  replace (existsb _ recs) with true; [reflexivity|]. symmetry. apply existsb_exists.
+  exists (r, false). split; [exact Hin|]. cbn. rewrite Hp. reflexivity.
+Qed.
+
+(* whatever the zone's key signs is a genuine chain record (the cryptographic assumption); everything else
+   in the authority section is arbitrary — unsigned records, a child or sibling zone's records under
+   their own keys.  Then AD, provenance and aggressive eligibility are published only for true denials. *)
+Theorem authority_nsec_signed_sound_lemma z recs rcode cd q qtype qclass ad marked aggr :
+  zone_wf z -> (forall r, In (r, true) recs -> genuine z r) -> is_prefix (z_apex z) q ->
+  authority_nsec_signed rcode cd q qtype qclass (z_apex z) recs = (E_ok, ad, marked, aggr) ->
+  (ad = true \/ marked = true \/ aggr = true) ->
+  cd = false /\ (if (rcode =? RC_NXDOMAIN)%N then ~ exists_in z q else nodata_true z q qtype).
+Proof.
+  intros Hwf Hg Hq. unfold authority_nsec_signed. destruct cd.
+  - intros E. inversion E; subst. intros [H|[H|H]]; discriminate.
+  - destruct (existsb _ recs) eqn:Ex; [discriminate|].
+    intros E Hany.
+    destruct (authority_nsec_sound_lemma z (filter_to_zone (z_apex z) (map fst recs)) rcode false q qtype qclass (z_apex z)
+                ad marked aggr Hwf) as [H1 [H2 _]]; auto.
+    intros r Hr. unfold filter_to_zone in Hr. apply filter_In in Hr. destruct Hr as [Hr Hz].
+    apply in_map_iff in Hr. destruct Hr as [[r' s] [Heq Hin]]. cbn in Heq. subst r'.
+    destruct s; [apply Hg, Hin|]. exfalso.
+    assert (existsb (fun rs => prefix_b (z_apex z) (c_owner (fst rs)) && negb (snd rs)) recs = true) as Hc.
+    { apply existsb_exists. exists (r, false). split; [exact Hin|]. cbn.
+      unfold in_zone_rec in Hz. apply andb_true_iff in Hz. destruct Hz as [Hz _]. rewrite Hz. reflexivity. }
+    rewrite Hc in Ex. discriminate.
+Qed.
+
+(* non-vacuity on the zone of mix_example: with the child zone's closing record under the child's key the
+   response is refused; the zone's own two records alone are accepted, AD and aggressive-eligible *)
+Example authority_signed_example :
+  authority_nsec_signed 3 false mx_u 1 1 mx_e (combine mx_recs [true; false; true]) = (E_other, false, false, false) /\
+  authority_nsec_signed 3 false mx_u 1 1 mx_e (combine mx_recs [true; true; true]) = (E_ok, true, true, true) /\
+  authority_nsec_signed 3 true mx_u 1 1 mx_e (combine mx_recs [true; false; true]) = (E_ok, false, false, false) /\
+  authority_nsec_signed 3 false mx_u 1 1 mx_e [(nth 0 mx_recs (mk_cnsec [] [] [] 0 0), true); (nth 2 mx_recs (mk_cnsec [] [] [] 0 0), true)]
+    = (E_ok, true, true, true).
 Proof. vm_compute. repeat split; reflexivity. Qed.
